@@ -282,6 +282,26 @@ class LockAnalysis:
                     if root and root[:2] == ("self", self.field) and len(root) == 2 and isinstance(node.func.value, ast.Attribute):
                         bad.append(f"{n}: {desc} (published levels disappear)")
             bad += self._publish_before_complete(f)
+        # O5: the lock is never held across a suspension point: no yield / yield from lexically inside a
+        # `with <lock>` block (a suspended generator would keep the process-wide lock until it is resumed or
+        # collected, and every other query would block), and no generator method is CALLED-AND-ITERATED there
+        held = []
+        for n, f in self.methods.items():
+            def scan(node, locked, n=n):
+                if self._is_lock_with(node):
+                    for ch in node.body:
+                        scan(ch, True)
+                    return
+                if locked and isinstance(node, (ast.Yield, ast.YieldFrom)):
+                    held.append(f"{n}: `{ast.unparse(node)[:60]}` inside the critical section")
+                if isinstance(node, (ast.FunctionDef, ast.Lambda)) and node is not f.node:
+                    return
+                for ch in ast.iter_child_nodes(node):
+                    scan(ch, locked)
+            scan(f.node, False)
+        recs.append(_rec(f"{self.cls}:ownership.O5-no-suspension-under-lock", "ownership", self.cls, "refuted" if held else "discharged",
+                         ("a generator is suspended while holding the process-wide lock (every other query blocks until it is resumed): " + " | ".join(held)) if held
+                         else "no yield inside a critical section"))
         recs.append(_rec(f"{self.cls}:ownership.O4-guarantee", "ownership", self.cls, "refuted" if bad else "discharged",
                          ("write violates the guarantee 'published levels are complete and never disappear': " + " | ".join(bad)) if bad else
                          "no rebinding / deletion / publish-before-complete shape"))
@@ -614,7 +634,9 @@ def run_for(prop):
     if prop == "C07":
         recs += LockAnalysis(idx).run()
     if prop == "C02":
-        recs += LockAnalysis(idx).run()[1:2]  # sequential contracts of C02 assume the writers are serialised
+        # sequential contracts of C02 assume the writers are serialised (O2) and that a suspended iterator
+        # does not block later queries (O5: "iterators that are still being consumed")
+        recs += [r for r in LockAnalysis(idx).run() if ".O2-" in r["name"] or ".O5-" in r["name"]]
     if prop == "C01":
         recs += memo_attribute(idx, "Perm", "_cached_pattern_details", "_pattern_details", ["Perm.occurrences_in"])
         recs += frame_readonly(idx, "Perm.occurrences_in")
